@@ -112,6 +112,8 @@ static void set_par(LocalNetwork* n, const std::string& c)
   if (c == "par:a") n->set_m_0_apriori();
   else if (c == "par:p") n->set_m_0_aposteriori();
   else if (c.compare(0, 5, "par:c") == 0) n->conf_pr(CP[atoi(c.c_str() + 5) % 4]);
+  else if (c == "par:u0") n->set_gons();
+  else if (c == "par:u1") n->set_degrees();
   else if (c.compare(0, 5, "par:s") == 0) { static const double M0[] = {5, 20, 10, 1}; n->apriori_m_0(M0[atoi(c.c_str() + 5) % 4]); n->update_residuals(); }   // a priori reference standard deviation; the setter leaves the notification to the caller
 }
 
@@ -145,8 +147,14 @@ static Built build(const gnet::Doc& d, const std::string& alg0, const std::vecto
       // with an adjustment after each, as in the used object: which points an adjustment removes (singular,
       // indeterminable) is decided round by round and never taken back, so "three observations off, then adjust" and
       // "one off, adjust, the next off, adjust, ..." are different inputs.
-      bool first = true;
-      for (auto& c : changes) { if (is_edit(c)) { if (first) do_edit(n, c); first = false; } else if (is_par(c)) set_par(n, c); }
+      // The angular unit of the presentation (par:u*) is a plain setting: the reference is told the LAST one only, a
+      // used object every one in turn.
+      bool first = true; size_t last_u = changes.size();
+      for (size_t q = 0; q < changes.size(); q++) if (changes[q].compare(0, 5, "par:u") == 0) last_u = q;
+      for (size_t q = 0; q < changes.size(); q++) { auto& c = changes[q];
+        if (is_edit(c)) { if (first) do_edit(n, c); first = false; }
+        else if (c.compare(0, 5, "par:u") == 0) { if (q == last_u) set_par(n, c); }
+        else if (is_par(c)) set_par(n, c); }
     });
     b.adjustable = p.adjustable; b.why = p.why;
     bool first = true;
@@ -274,7 +282,16 @@ Verdict execute(const Plan& plan, EventLog& log, Stats& st)
       log.line("%d o%lld update(%d)", n, s.arg(0) % nobj, w); st.add("ops.update"); st.nontrivial = true; st.shape += fmt("net:upd%d,", w);
       st.state("hist", fmt("net/update%d/asked%d", w, std::min(O.asked, 2)));
     } else if (op == "par") {
-      int w = (int)(s.arg(1) % 4);
+      int w = (int)(s.arg(1) % 5);
+      if (w == 4) {
+        // gons or degrees: Observation::gons is one process-wide switch behind LocalNetwork::set_gons()/set_degrees()
+        // (see DESIGN 10.5), so the step tells every object of the run
+        std::string c = fmt("par:u%d", (int)(s.arg(2) % 2));
+        for (auto& Q : objs) if (Q.b.adjustable) { apply_change(Q.b.net.get(), c); Q.changes.push_back(c); }
+        log.line("%d all %s", n, c.c_str()); st.add("ops.parameter"); st.nontrivial = true; st.shape += "net:" + c + ",";
+        st.state("hist", fmt("net/%s/asked%d", c.c_str(), std::min(O.asked, 2)));
+        n++; continue;
+      }
       // (the a priori m0 scales the project equations: once approximate coordinates were moved by corrections computed
       //  under the old scale, "given before the first adjustment" would be another input at round-off level)
       if (w == 3) { bool moved = false; for (auto& c0 : O.changes) if (c0 == "refine" || c0 == "refcoord") moved = true; if (moved) { n++; continue; } }
@@ -345,7 +362,7 @@ void generate(Plan& p, Rng& g, const std::string&)
       // question in turn, twice (the second round is answered without any fresh object being built in between)
       static const char* X[] = {"conf_int_coef", "doc:xml", "doc:general", "studentized", "stdev_res", "unknown_stdev", "ellipse", "doc:adjobs", "doc:unknowns", "m_0", "stdev_obs"};
       auto qi = [&](const char* name) { for (int i = 0; i < NQK; i++) if (std::string(QK[i]) == name) return i; return 0; };
-      { Step s; s.op = "par"; s.a = {0, (long long)g.below(4), (long long)g.range(1, 3)}; p.steps.push_back(s); }
+      { Step s; s.op = "par"; s.a = {0, (long long)g.below(5), (long long)g.range(1, 3)}; p.steps.push_back(s); }
       int k = qi(X[g.below(11)]); long long a = (long long)g.below(64);
       for (int round = 0; round < 2; round++) for (int o = 0; o < 2; o++) { Step s; s.op = "q"; s.a = {o, k, a, a}; p.steps.push_back(s); }
     }
@@ -368,7 +385,7 @@ void generate(Plan& p, Rng& g, const std::string&)
     else {
       int r = (int)g.below(10);
       if (r < 3) { s.op = "upd"; s.a.push_back((long long)g.below(4)); }
-      else if (r < 5) { s.op = "par"; s.a.push_back((long long)g.below(4)); s.a.push_back((long long)g.below(4)); }
+      else if (r < 5) { s.op = "par"; s.a.push_back((long long)g.below(5)); s.a.push_back((long long)g.below(4)); }
       else if (r < 7) { s.op = "chg"; long long w = (long long)g.below(8); if (w == 7) w = 5; s.a.push_back(w); s.a.push_back((long long)g.below(w >= 5 ? 1000 : 4)); }
       else query(g.chance(1, 2) ? F0[g.below(9)] : F1[g.below(12)]);
     }
